@@ -402,9 +402,13 @@ func (e *exec[K]) checkCalls(what string, lk, used int) error {
 	if e.cfg.Flavor == "less" {
 		per *= 2
 	}
-	bound := per * LevelsBound(e.m.Len())
+	levels := LevelsBound(e.m.Len())
+	if e.prevShape != nil && e.prevShape.NumKeys == e.m.Len() && e.prevShape.Height < levels {
+		levels = e.prevShape.Height // a lookup visits one node per level it actually descends
+	}
+	bound := per * levels
 	if used > bound {
-		return e.viol("too-many-comparisons", "%s(%d) made %d comparator calls on %d keys, bound %d", what, lk, used, e.m.Len(), bound)
+		return e.viol("too-many-comparisons", "%s(%d) made %d comparator calls on %d keys in %d levels, bound %d per level", what, lk, used, e.m.Len(), levels, per)
 	}
 	return nil
 }
